@@ -169,6 +169,29 @@ CHECKS = {
         "features are used; quick MaxN=6, thorough MaxN=8."),
   technique="TLC model checking + TLC-enumerated cases replayed on real exports",
  ),
+ "C15": dict(
+  level="model_checking",
+  design_ref="DESIGN.md section 5, C15",
+  text=("PolygonSpec defines even-odd containment as the parity of proper "
+        "crossings of a ray that provably avoids all vertices, with integer "
+        "cross products only, and transcribes the half-open rule of "
+        "point_in_polygon; TLC proves them equal for every polygon with "
+        "MinV..MaxV vertices on the grid (convex, concave, self-"
+        "intersecting, repeated vertices) and every half-lattice and "
+        "lattice point off the boundary, plus invariance under cyclic "
+        "shift, reversal and a repeated closing vertex. The classification "
+        "table emitted by TLC is compared with the compiled "
+        "PolygonFilter.filter / point_in_poly for every polygon and point, "
+        "as given/shifted/reversed/closed/inverted and under exact "
+        "similarity transforms spanning 12 orders of magnitude. "
+        "PolyFileSpec enumerates sets of filters for .poly round trips."),
+  note=("compiled Cython code as installed; coordinates exactly "
+        "representable (random non-dyadic floats whose classification "
+        "depends on rounding of the division are not decided, DESIGN 7); "
+        "quick: G=3 with 3..4 vertices (7290 polygons x 49 points); "
+        "thorough: G=3 up to 5 vertices and G=4 up to 4 vertices."),
+  technique="TLC exhaustive equivalence proof on the lattice + table replay on compiled code",
+ ),
 }
 
 NOT_YET = "check not built yet (work in progress; see DESIGN.md section 5)"
